@@ -6,9 +6,13 @@ sys.path.insert(0, HERE)
 from checks import CHECKS, NOT_APPLICABLE, ALL_IDS  # noqa
 
 VERIF = os.path.dirname(HERE)
+# Only checks listed in lib/ready.txt are claimed (a checks.d file may exist while a
+# harness is still being built).
+with open(os.path.join(HERE, "ready.txt")) as f:
+    READY = set(f.read().split())
 checks = []
 for pid in ALL_IDS:
-    if pid not in CHECKS:
+    if pid not in CHECKS or pid not in READY:
         continue
     c = CHECKS[pid]
     checks.append({
@@ -23,7 +27,7 @@ for pid in ALL_IDS:
         "technique": c["technique"],
     })
 na = [{"property_id": pid, "reason": NOT_APPLICABLE.get(pid, "check not built yet in this session; see DESIGN.md §4 for the planned design")}
-      for pid in ALL_IDS if pid not in CHECKS]
+      for pid in ALL_IDS if pid not in CHECKS or pid not in READY]
 m = {
     "version": 1,
     "setup_cmd": "python3 lib/setup.py",
